@@ -253,6 +253,18 @@ def work(out):
     pr = re.findall(r'\*\* \d+ of (\d+) failed', out)
     return (max(int(x) for x in st) if st else 0), (max(int(x) for x in pr) if pr else 0)
 
+def run_cbmc(cmd, cwd, timeout, mem_gb):
+    """CBMC or its external SAT solver killed from outside (machine-wide out-of-memory killer, rc < 0) or starved of memory is a property of the machine's
+    load at that moment, not of the query: wait and try again (twice); a third failure is reported as it is (error, never a pass)."""
+    for attempt in range(3):
+        rc, out, dt, x = run(cmd, cwd=cwd, timeout=timeout, mem_gb=mem_gb)
+        killed = (isinstance(rc, int) and rc < 0) or ('VERIFICATION' not in out and rc != 'timeout' and
+                 re.search(r'unexpected response', out) is not None)     # external SAT solver died
+        if not killed: break
+        log('  (cbmc was killed or ran out of memory: rc=%s; retrying in 60 s)' % rc)
+        time.sleep(60 * (attempt + 1))
+    return rc, out, dt, x
+
 def check_ob(ob, seed, known):
     """Runs witness twin, translation validation, the query, and replay.  Fills ob.result."""
     u = ob.unit; t0 = time.time()
@@ -264,7 +276,7 @@ def check_ob(ob, seed, known):
         r['status'] = 'error'; r['detail'] = u.error; return r
     # --- witness twin: the end of the harness must be reachable under the assumptions
     cmd = cbmc_cmd(u, ob, True)
-    rc, out, dt, _ = run(cmd, cwd=u.dir, timeout=ob.timeout, mem_gb=ob.mem_gb)
+    rc, out, dt, _ = run_cbmc(cmd, u.dir, ob.timeout, ob.mem_gb)
     if rc == 'timeout':
         r['status'] = 'undecided'; r['detail'] = 'witness query timed out after %ds' % ob.timeout; r['wall_s'] = time.time() - t0; return r
     if 'VERIFICATION FAILED' not in out:
@@ -292,7 +304,7 @@ def check_ob(ob, seed, known):
     disabled = []
     for attempt in range(4):
         cmd = cbmc_cmd(u, ob, False, disabled)
-        rc, out, dt, _ = run(cmd, cwd=u.dir, timeout=ob.timeout, mem_gb=ob.mem_gb)
+        rc, out, dt, _ = run_cbmc(cmd, u.dir, ob.timeout, ob.mem_gb)
         r['vars'], r['clauses'], r['solver_s'] = stats(out) if rc != 'timeout' else (0, 0, 0.0)
         r['steps'], r['nprops'] = work(out) if rc != 'timeout' else (0, 0)
         r['cbmc_s'] = dt
@@ -446,6 +458,11 @@ def run_property(pid, units, obs, tier, seed, level_text, trusted_base, extra_as
         os.makedirs(os.path.join(VERIF, 'evidence'), exist_ok=True)
         with open(os.path.join(VERIF, 'evidence', pid + os.environ.get('VERIF_EVIDENCE_SUFFIX', '') + '.json'), 'w') as f:
             json.dump(ev, f, indent=1)
+        if not os.environ.get('VERIF_EVIDENCE_SUFFIX') and not os.environ.get('VERIF_PARTIAL'):
+            # archival copy per tier (evidence/<id>.json always describes the most recent run of either tier)
+            os.makedirs(os.path.join(VERIF, 'evidence', tier), exist_ok=True)
+            with open(os.path.join(VERIF, 'evidence', tier, pid + '.json'), 'w') as f:
+                json.dump(ev, f, indent=1)
         log('%s %s: %d obligations, %d discharged, %d undecided, %d errors, %d violations, %d known; %.0fs' %
             (pid, tier, n, disc, sum(1 for r in results if r['status'] == 'undecided'), len(errors), len(violations), len(knownhits), time.time() - t0))
         if violations: return 1
